@@ -2,7 +2,7 @@
 import itertools
 from .common import *  # noqa
 
-KEYS = {"comps", "flows"}
+KEYS = {"comps", "flows", "flow_rates"}
 
 
 def filters_for(prog, rng, thorough):
@@ -21,7 +21,7 @@ def filters_for(prog, rng, thorough):
 def run(tier, seed):
     n = tier_n(tier, 200, 2500)
     g = gen.Gen(seed * 7919 + 13)
-    progs = [g.program({"nstrat": g.rng.choice([1, 2, 2, 3]), "p_post": 0.6}) for _ in range(n)]
+    progs = [g.program({"nstrat": g.rng.choice([1, 2, 2, 3]), "p_post": 0.6, "cross": 0.5}) for _ in range(n)]
     out = []
     nq = 0
     for p in progs:
@@ -44,7 +44,17 @@ def run(tier, seed):
         nq += len(queries)
         p["obs"] = obs
         out.append(p)
-    ex = checklib.explore(out, keys=KEYS)
+    # which adjustment a source / destination restricted flow adjustment lands on shows in the flow rates
+    out2 = []
+    for p, st in with_struct(out):
+        if st is not None:
+            nc = len(st["comps"])
+            pv = g.params_values(small=True)
+            x = fix_domain(p, st["comps"], g.state(nc, "pos"))
+            p["obs"].append({"obs": "onestep", "params": pv, "t": gen.dy(g.rng, 0, 24, 2), "x": x})
+        out2.append(p)
+    out = out2
+    ex = checklib.explore(out, keys=KEYS, per_prog_timeout=30.0)
     nontrivial = set()
     for p, a in zip(out, ex["mres"]):
         if a.get("build_error") is None and a.get("obs"):
@@ -52,7 +62,8 @@ def run(tier, seed):
             if sel and any(o["op"] == "strat" for o in p["ops"]):
                 nontrivial.add(checklib.signature(p))
     return {"programs": out, "explore": ex, "distinct_nontrivial": len(nontrivial),
-            "rule": "stratified models (1-3 stratifications, flows added after stratification with strata filters); per model "
+            "rule": "stratified models (1-3 stratifications, flows added after stratification with strata filters, same-named "
+                    "cross-stratum flows adjusted later through source AND destination filters, flow rates observed); per model "
                     "the filters {empty, every single pair, pairs of pairs, full, non-existent stratum} applied through "
                     "query_compartments, query_flows (source / dest / both) and BaseFlow.is_match; compared with the model "
                     "and with a brute-force selection on the implementation; non-trivial = stratified and some query selects "
